@@ -184,6 +184,22 @@ def run(ctx):
                             c_ = xitorch.interpolate.Interp1D(xt[perm], yt[perm], method="cspline", bc_type=bc)(xq.flip(0)).flip(0)
                             if why is None and not torch.allclose(a, c_, atol=1e-11):
                                 why = "result depends on the order of the samples / of the queries"
+                            # shuffled samples with y given at call time, batched y, and the piecewise-linear method
+                            d_ = xitorch.interpolate.Interp1D(xt[perm], method="cspline", bc_type=bc)(xq, yt[perm])
+                            if why is None and not torch.allclose(a, d_, atol=1e-11):
+                                why = "shuffled samples with y given at call time give different values (max dev %.2e)" % float((a - d_).abs().max())
+                            if bc != "periodic":
+                                yb2 = torch.stack([yt, 2.0 * yt - 1.0])
+                                e_ = xitorch.interpolate.Interp1D(xt[perm], yb2[:, perm], method="cspline", bc_type=bc)(xq)
+                                if why is None and not (e_.shape == (2, len(xq)) and torch.allclose(e_[0], a, atol=1e-11) and torch.allclose(e_[1], 2.0 * a - 1.0, atol=1e-10)):
+                                    why = "batched y on shuffled samples is not interpolated row by row"
+                            if bc == "natural":
+                                l1 = xitorch.interpolate.Interp1D(xt, yt, method="linear")(xq)
+                                l2 = xitorch.interpolate.Interp1D(xt[perm], method="linear")(xq, yt[perm])
+                                l3 = xitorch.interpolate.Interp1D(xt[perm], yt[perm], method="linear")(xq.flip(0)).flip(0)
+                                lref = torch.tensor(np.interp(xq.numpy(), xs, yb), dtype=DT)
+                                if why is None and not (torch.allclose(l1, lref, atol=1e-12) and torch.allclose(l2, lref, atol=1e-12) and torch.allclose(l3, lref, atol=1e-12)):
+                                    why = "linear method on sorted / shuffled samples (y at init or call) differs from numpy.interp"
                         if why is None:
                             # formula A == formula B on the same points
                             pts = xq_few
